@@ -33,6 +33,16 @@ def _flag_assigns(f, flag):
 def ts_rules(facts, rep):
     rule = "C12-TS"
     ok = True
+    from rules.shared_typestate import holds as _tsx_holds
+    _real_check = rep.check
+
+    def soft(good, rule_, key, where_="", okd="", badd="", covered=("panic:",)):
+        """a structural sub-rule whose whole purpose is an obligation that E6 decides on the writer's state machine (C12-TSX): when the
+        code has a shape the pattern does not recognise, the obligation itself is the verdict"""
+        if not good and _tsx_holds(facts, "unsupported", *covered):
+            return _real_check(True, rule_, key, where_, "shape not recognised by the structural pattern; the obligation it stands for (%s) holds on "
+                               "the state machine of every call sequence (C12-TSX)" % ", ".join(covered))
+        return _real_check(good, rule_, key, where_, okd, badd)
     zmeths = [f for f in facts.fns if re.search(ZW, f.path) or re.search(r"^write::<impl std::(io::Write|ops::Drop) for write::zip_writer::ZipWriter<W>>::", f.path)
               or re.search(r"^write::<impl write::zip_writer::ZipWriter<A>>::", f.path)]
     rep.count("writer_methods", len(zmeths))
@@ -41,16 +51,16 @@ def ts_rules(facts, rep):
     sw = calls_matching(ee, r"GenericZipWriter::<W>::switch_to$")
     clears = [x for x in _flag_assigns(ee, "writing_to_extra_field") if x[3] == 0]
     good = bool(sw) and bool(clears) and all(any(ee.dominates(c[0], b) for c in clears) for b, _ in sw)
-    ok &= rep.check(good, rule, "I1:clear-before-switch", where(ee, sw[0][1]["span"]) if sw else where(ee, ee.span),
+    ok &= soft(good, rule, "I1:clear-before-switch", where(ee, sw[0][1]["span"]) if sw else where(ee, ee.span),
                     "writing_to_extra_field is cleared before switch_to(): a failed switch cannot leave extra-data mode on a closed writer",
                     "end_extra_data calls the fallible switch_to() while writing_to_extra_field is still set: when it fails (unsupported method, level out "
-                    "of range) the writer is closed with the flag set and the next finish()/start_file() panics in get_plain")
+                    "of range) the writer is closed with the flag set and the next finish()/start_file() panics in get_plain", covered=('panic:',))
     # the companion flag: central-only mode belongs to ONE entry's extra data and ends with it (a sticky flag would make the next
     # entry's extra data skip its local copy and the compressor switch)
     clears2 = [x for x in _flag_assigns(ee, "writing_to_central_extra_field_only") if x[3] == 0]
     good = bool(clears2) and bool(sw) and all(any(ee.dominates(c[0], b) for c in clears2) for b, _ in sw)
-    ok &= rep.check(good, rule, "I1:clear-central-only", where(ee, ee.span), "writing_to_central_extra_field_only is cleared (after being read) before switch_to()",
-                    "end_extra_data no longer clears writing_to_central_extra_field_only: central-only mode leaks into the following entries")
+    ok &= soft(good, rule, "I1:clear-central-only", where(ee, ee.span), "writing_to_central_extra_field_only is cleared (after being read) before switch_to()",
+                    "end_extra_data no longer clears writing_to_central_extra_field_only: central-only mode leaks into the following entries", covered=('panic:', 'INV:central-only'))
     # validation happens before the flag is cleared and before anything is emitted
     va = calls_matching(ee, r"^write::validate_extra_data$")
     wa = calls_matching(ee, r"io::Write::write_all$")
@@ -67,14 +77,14 @@ def ts_rules(facts, rep):
                 se = calls_matching(f, ZW + "start_entry$")
                 mut = calls_matching(f, r"switch_to$|mem::replace$")
                 good = bool(se) and f.call_dominates_stmt(se[0][0], bi) and not mut
-                ok &= rep.check(good, rule, "I1:establish@%s" % nm, where(f, s["span"]), "set right after start_entry()? with no compressor switch in between",
-                                "extra-data mode is entered without a preceding successful start_entry (sink not plain)")
+                ok &= soft(good, rule, "I1:establish@%s" % nm, where(f, s["span"]), "set right after start_entry()? with no compressor switch in between",
+                                "extra-data mode is entered without a preceding successful start_entry (sink not plain)", covered=('panic:', 'INV:'))
             elif nm == "end_local_start_central_extra_data":
                 co = [x for x in _flag_assigns(f, "writing_to_central_extra_field_only") if x[3] == 1]
                 e2 = calls_matching(f, ZW + "end_extra_data$")
                 good = bool(co) and bool(e2) and f.call_dominates_stmt(e2[0][0], bi)
-                ok &= rep.check(good, rule, "I1:establish@%s" % nm, where(f, s["span"]), "central-only extra-data mode entered after end_extra_data()?, together with central_only",
-                                "central extra-data mode is entered without setting central_only (get_plain would be reached with a compressor active)")
+                ok &= soft(good, rule, "I1:establish@%s" % nm, where(f, s["span"]), "central-only extra-data mode entered after end_extra_data()?, together with central_only",
+                                "central extra-data mode is entered without setting central_only (get_plain would be reached with a compressor active)", covered=('panic:', 'INV:'))
             else:
                 ok = False
                 rep.violation(rule, "I1:establish@%s" % nm, where(f, s["span"]), "unexpected site enters extra-data mode")
@@ -84,8 +94,8 @@ def ts_rules(facts, rep):
     for b, t in gp:
         fs = dominating_facts(ee, exe, b)
         good = any(x[0] == "truth" and x[2] is False and ("central" in show(x[1])) for x in fs)
-        ok &= rep.check(good, rule, "I1:get_plain-not-central", where(ee, t["span"]), "sink accessed only when not in central-only mode",
-                        "end_extra_data touches the sink in central-only mode (a compressor is active then)")
+        ok &= soft(good, rule, "I1:get_plain-not-central", where(ee, t["span"]), "sink accessed only when not in central-only mode",
+                        "end_extra_data touches the sink in central-only mode (a compressor is active then)", covered=('panic:',))
     # ---------------- I2: finish_file leaves a plain stored sink
     ff = facts.one(ZW + "finish_file$")
     exf = Ex(ff)
@@ -98,23 +108,23 @@ def ts_rules(facts, rep):
         good = any(x[0] == "truth" and x[2] is True and "writing_to_extra_field" in show(x[1]) for x in fs)
         a = norm(exf.operand(st[0][1]["args"][1], (st[0][0], None)))
         good = good and a[0] == "agg" and a[1] == "adt:Stored" and ff.dominates(st[0][0], gpf[0][0])
-    ok &= rep.check(good, rule, "I2:close-sequence", where(ff, ff.span), "implicit end_extra_data()? when in extra-data mode, then switch_to(Stored)?, then the plain sink",
-                    "the entry-closing function no longer ends extra-data mode / switches to Stored before touching the plain sink")
+    ok &= soft(good, rule, "I2:close-sequence", where(ff, ff.span), "implicit end_extra_data()? when in extra-data mode, then switch_to(Stored)?, then the plain sink",
+                    "the entry-closing function no longer ends extra-data mode / switches to Stored before touching the plain sink", covered=('panic:',))
     # the match after mem::replace restores a Storer on every non-error arm
     assigns = [(bi, si, s) for (f, bi, si, s) in field_assignments(facts, "inner", r"ZipWriter$") if f.path == ff.path]
     vals = [a_ for bi, si, s in assigns for a_ in alts(norm(exf.rvalue(s["rv"], (bi, si))))]
     pay = [a_ for v in vals if v[0] == "agg" and v[3] for a_ in alts(v[3][0][1])]      # Storer(x): x may itself be chosen per arm
     good = len(vals) >= 1 and all(v[0] == "agg" and v[1] == "adt:Storer" for v in vals) and len(pay) >= 2 and \
         any(a_[0] == "agg" and a_[1] == "adt:Unencrypted" for a_ in pay)
-    ok &= rep.check(good, rule, "I2:restore-storer", where(ff, ff.span), "inner := Storer(Unencrypted(..)) / Storer(w) on the success arms",
-                    "finish_file restores %s" % [show(v)[:60] for v in vals])
+    ok &= soft(good, rule, "I2:restore-storer", where(ff, ff.span), "inner := Storer(Unencrypted(..)) / Storer(w) on the success arms",
+                    "finish_file restores %s" % [show(v)[:60] for v in vals], covered=('panic:',))
     for nm in ("start_entry", "finalize"):
         f = facts.one(ZW + nm + "$")
         c1 = calls_matching(f, ZW + "finish_file$")
         g = calls_matching(f, r"get_plain$")
         good = bool(c1 and g) and all(f.dominates(c1[0][0], b) for b, _ in g)
-        ok &= rep.check(good, rule, "I2:get_plain-after-close@%s" % nm, where(f, f.span), "plain sink accessed only after finish_file()? succeeded",
-                        "%s accesses the plain sink without first closing the current entry" % nm)
+        ok &= soft(good, rule, "I2:get_plain-after-close@%s" % nm, where(f, f.span), "plain sink accessed only after finish_file()? succeeded",
+                        "%s accesses the plain sink without first closing the current entry" % nm, covered=('panic:',))
     fin = facts.one(ZW + "finish$")
     c1 = calls_matching(fin, ZW + "finalize$")
     un = calls_matching(fin, r"GenericZipWriter::<W>::unwrap$")
@@ -124,7 +134,7 @@ def ts_rules(facts, rep):
         exfin = Ex(fin)
         fs = dominating_facts(fin, exfin, un[0][0])
         good = any(x[0] == "Eq" and x[1][0] == "discr" and any(y[0] == "call" and y[1].endswith("finalize") for y in walk(x[1])) and x[2][0] == "const" and x[2][2] == 0 for x in fs)
-    ok &= rep.check(good, rule, "I2:unwrap-after-finalize", where(fin, fin.span), "sink unwrapped only after finalize()? succeeded", "finish() unwraps the sink without a successful finalize()")
+    ok &= soft(good, rule, "I2:unwrap-after-finalize", where(fin, fin.span), "sink unwrapped only after finalize()? succeeded", "finish() unwraps the sink without a successful finalize()", covered=('panic:',))
     # ---------------- I3: entries are never removed; flags that promise a current entry are set only after one was pushed
     bad = []
     for f in facts.fns:
@@ -146,8 +156,8 @@ def ts_rules(facts, rep):
                     continue
                 se = calls_matching(f, ZW + "(start_entry|end_extra_data)$")
                 good = bool(se) and any(f.call_dominates_stmt(b, bi) for b, _ in se)
-                ok &= rep.check(good, rule, "I3:%s-after-entry@%s" % (flag, f.path.split("::")[-1]), where(f, s["span"]),
-                                "%s := true only after an entry was opened" % flag, "%s is set without a current entry" % flag)
+                ok &= soft(good, rule, "I3:%s-after-entry@%s" % (flag, f.path.split("::")[-1]), where(f, s["span"]),
+                                "%s := true only after an entry was opened" % flag, "%s is set without a current entry" % flag, covered=('panic:', 'INV:open'))
     # last().unwrap() sites are guarded by one of the flags (or follow start_entry)
     for f in zmeths:
         ex = Ex(f)
@@ -159,8 +169,8 @@ def ts_rules(facts, rep):
                     guard = any(x[0] == "truth" and x[2] is True and re.search(r"writing_to_(file|extra_field)$", show(x[1])) for x in fs)
                     se = calls_matching(f, ZW + "(start_entry|end_extra_data)$")
                     after = any(f.dominates(b, bi) for b, _ in se)
-                    ok &= rep.check(guard or after, rule, "I3:last-unwrap@%s" % f.path.split("::")[-1], where(f, t["span"]),
-                                    "files.last().unwrap() under a flag that implies a current entry", "files.last().unwrap() without a guard implying a current entry")
+                    ok &= soft(guard or after, rule, "I3:last-unwrap@%s" % f.path.split("::")[-1], where(f, t["span"]),
+                                    "files.last().unwrap() under a flag that implies a current entry", "files.last().unwrap() without a guard implying a current entry", covered=('panic:',))
     # ---------------- I4
     for f in zmeths:
         ex = Ex(f)
@@ -413,6 +423,9 @@ def run(ctx, rep):
     failclosed_rules(facts, rep)
     misuse_rules(facts, rep)
     patch_rules(facts, rep, rule="C12-PATCH")
+    from rules.shared_typestate import typestate_rules
+    typestate_rules(facts, rep)        # E6: every call sequence over the writer alphabet, on the abstract state machine read off the MIR
+    rep.floor("C12-TSX", 30)
     from rules.C02 import limit_rules
     limit_rules(facts, rep)            # reported as C12/C02-LIMIT: "every call that is valid in its state succeeds" -- the longest valid name/comment/extra field is accepted
     from rules.C13 import raw_rules as _raw13
